@@ -28,7 +28,8 @@ def any_session(c, version, with_decryptor):
                     c.raise_in_code("InvalidTag")
                 return c.bytes_fresh("plaintext", 0, 70000)
             return None
-        dec = c.recorder("decryptor", handler=behave)
+        # a decryptor carries its record counters (the real classes set them in __init__)
+        dec = c.recorder("decryptor", handler=behave, server_seq=c.int("server_seq", 0, 2 ** 62), client_seq=c.int("client_seq", 0, 2 ** 62))
     attrs = dict(exp_meta=c.bool("exp_meta"), can_decrypt=c.bool("can_decrypt"), client_hello_seen=c.bool("client_hello_seen"),
                  server_cipher_change=c.bool("server_ccs"), client_cipher_change=c.bool("client_ccs"), decryptor=dec,
                  application_traffic=[], keylog=[], server_ip=c.bytes("sip", length=4), client_ip=c.bytes("cip", length=4),
